@@ -503,8 +503,8 @@ fn drive5(ctx: &mut Ctx, desc: &str, f: &dyn Fn(Option<u64>) -> Result<Out, Stri
 
 macro_rules! for_ns {
     ($ctx:expr, [$($n:ty),*], [$($tn:ty),*], $N:ident => $body:block) => {
-        $( { type $N = $n; $body } )*
-        { $( { type $N = $tn; $body } )* }
+        $( { type $N = $n; if <$N as generic_array::typenum::Unsigned>::USIZE <= vcommon::maxn() { $body } } )*
+        { $( { type $N = $tn; if <$N as generic_array::typenum::Unsigned>::USIZE <= vcommon::maxn() { $body } } )* }
     };
 }
 
